@@ -11,6 +11,18 @@ CHECKS = {
    technique="TLA+ model of Do (TLC exhaustive at bounded scripts) + deterministic gate-by-gate replay of TLC-generated and enumerated schedules on the real client, each recorded step validated by TLC (trace validation)",
    text="TLC checks PacketBoundary / NoStaleOutput / CleanSuccess on every interleaving of sender, receiver and cancel-watch for the bounded script universe; the real client is then driven through model-generated schedules, exceptions before/after every client step, write breaks and server cuts at every byte offset, failing callbacks, and every recorded step must be a step of the specification with the observed wire tokens, closed flag and next-request bytes.",
    note="Trusted: TLC; the gate scheduler (verif hooks are the only interleaving points observed); the in-memory connection as a stand-in for TCP; ch-go's own decoders used to tokenise client output."),
+ "C03": dict(engine="QueryLifecycle", category="model_checking", design_ref="DESIGN.md §5 C03",
+   technique="TLA+ model of Do's receive loop (TLC exhaustive over bounded scripts) + scripted server streams replayed on the real client, callbacks and returned exception chain validated step by step by TLC (trace validation)",
+   text="TLC checks Delivered (callback log = exactly the callbacks the consumed packets call for, in order), NilOnlyAfterEos and ExcReturned on the model; random well-formed scripts up to length 12 (quick) / 30 (thorough), every callback present or absent, a failing callback at every position, all compression modes and several revisions run on the real client; each receiver step's callbacks (with the script item whose rows the bound columns hold), the error class, the recovered exception chain and errors.Is for every code are validated against the specification.",
+   note="Trusted: TLC; the scripted server encodes packets with ch-go's own encoders (their layout is C17's subject); recording callbacks identify a block by its rows."),
+ "C09": dict(engine="QueryLifecycle", category="model_checking", design_ref="DESIGN.md §5 C09",
+   technique="TLA+ model of Do's send loop with input-contents versions (TLC exhaustive) + every bounded OnInput history executed on the real client with snapshots taken inside the callback, wire blocks matched to snapshots and validated by TLC (trace validation)",
+   text="Every OnInput history up to 2 (quick) / 3 (thorough) nil-returning calls followed by a terminal call, over keep/append/reset/reset+append/overwrite-in-place and nil/io.EOF/wrapped io.EOF/error, initial rows zero or not, with a zero-copy and a copying column, across compression modes; TLC validates that block k on the wire holds the contents of round k, exactly one terminator follows, leftover rows are sent, errors stop the stream.",
+   note="Trusted: TLC; blocks on the wire are decoded with ch-go's decoders and matched to harness snapshots by value."),
+ "C10": dict(engine="QueryLifecycle", category="model_checking", design_ref="DESIGN.md §5 C10",
+   technique="TLA+ model of Do with cancellation/deadline enabled in every state (TLC safety + liveness under fairness) + cancellation injected after every prefix of every recorded schedule on the real client, validated by TLC (trace validation)",
+   text="TLC checks CancelReturnsCtx, CancelCloses, CancelPacketOnce, NoOrphans and the liveness property Returns; on the real client a cancellation or deadline expiry is injected at every gate of every baseline run (and from inside callbacks); the bytes written by the cancel-watch, Close calls, errors.Is against the context's error and leftover library goroutines are validated against the specification. The wall-clock bound (read timeout + grace) is covered by the free-running runs of C12's driver, not by this gated replay.",
+   note="Trusted: TLC; gate scheduler; cancellation inside a blocking conn.Read is represented by the gated in-memory connection."),
  "C14": dict(engine="Writer", category="model_checking", design_ref="DESIGN.md §5 C14",
    technique="TLA+ model of the vectored writer with explicit backing arrays (TLC exhaustive) + every bounded operation sequence executed on the real proto.Writer and validated by TLC (trace validation)",
    text="Exhaustive at the stated sequence length over a 12-operation alphabet, plus random long sequences; each Flush's delivered bytes are compared by TLC with the specification's pending contents.",
